@@ -73,23 +73,27 @@ def _batch(draw):
 
 
 def _boundary_widths(irs, salt, cap=40):
-    """Widths equal to (and one below / above) the length of an actual line of the unwrapped artefacts: the widths at which
-    'fits exactly' turns into 'must wrap'. The unwrapped emission does not depend on the width, so it is computed here."""
-    lens = set()
+    """Widths placed on the line lengths of the unwrapped artefacts: first the length L of the LONGEST line of every
+    (description, kind) artefact - at width L everything fits exactly and nothing may change, at L-1 one line must wrap - then
+    lengths of other lines. The unwrapped emission does not depend on the width, so it is computed here."""
+    longest, other = set(), set()
     for ir in irs:
         for kind in kinds.KINDS:
             try:
                 text = kinds.emit_text(kind, domain.to_ir(ir), dict(kinds.default_opts(kind), word_wrap=False))
             except Exception:
                 continue
-            lens |= {len(l) for l in text.split("\n")}
-    cand = sorted({w for L in lens for w in (L - 1, L, L + 1) if 40 <= w <= 200})
-    if len(cand) > cap:  # deterministic thinning that keeps triples (L-1, L, L+1) together
-        exact = sorted(L for L in lens if 40 <= L <= 200)
-        step = max(1, -(-len(exact) * 3 // cap))
-        pick = exact[salt % step::step]
-        cand = sorted({w for L in pick for w in (L - 1, L, L + 1) if 40 <= w <= 200})
-    return cand or [80]
+            ls = sorted({len(l) for l in text.split("\n")})
+            longest.add(ls[-1])
+            other |= set(ls[:-1])
+    ok = lambda w: 40 <= w <= 200
+    first = sorted({w for L in longest for w in (L - 1, L) if ok(w)})
+    rest = sorted({w for L in other for w in (L - 1, L, L + 1) if ok(w)} - set(first))
+    room = max(0, cap - len(first))
+    if len(rest) > room:
+        step = max(1, -(-len(rest) // max(room, 1)))
+        rest = rest[salt % step::step][:room]
+    return sorted(set(first[:cap]) | set(rest)) or [80]
 
 
 def strategy(mode, knob=None):
